@@ -56,6 +56,9 @@ UNIT_OPS = {
     "div": (2, lambda a, b: "PANIC" if b == 0 else tag(tdiv(a, b))),
     "div_floor": (2, lambda a, b: "PANIC" if b == 0 else tag(a // b)),
     "div_ceil": (2, lambda a, b: "PANIC" if b == 0 else tag(-((-a) // b))),
+    "bitand": (2, lambda a, b: tag(a & b)),
+    "bitor": (2, lambda a, b: tag(a | b)),
+    "bitxor": (2, lambda a, b: tag(a ^ b)),
     "abs": (1, lambda a: tag(abs(a))),
     "signum": (1, lambda a: tag((a > 0) - (a < 0))),
     "is_zero": (1, lambda a: str(a == 0).lower()),
@@ -313,6 +316,9 @@ def lang_ops():
         "b.mul": ("{a} * {b}", 2, lambda a, b: o_int(a * b)),
         "b.neg": ("-{a}", 1, lambda a: o_int(-a)),
         "b.mod": ("{a} % {b}", 2, mod),
+        "b.bit_and": ("bit_and({a}, {b})", 2, lambda a, b: o_int(a & b)),
+        "b.bit_or": ("bit_or({a}, {b})", 2, lambda a, b: o_int(a | b)),
+        "b.bit_xor": ("bit_xor({a}, {b})", 2, lambda a, b: o_int(a ^ b)),
         "b.div_floor": ("div_floor({a}, {b})", 2, dfl),
         "b.div_ceil": ("div_ceil({a}, {b})", 2, dce),
         "b.lt": ("{a} < {b}", 2, lambda a, b: o_bool(a < b)),
